@@ -265,7 +265,7 @@ def depth_of(v):
 
 def gen_docs(ctx):
     r = ctx.sub_rng('docs')
-    n = 500 if ctx.tier == 'quick' else 3200
+    n = 420 if ctx.tier == 'quick' else 3200
     docs = [(d, 'fixed') for d in FIXED_DOCS]
     docs += [(d, 'scalar_root') for d in SCALAR_ROOTS]
     docs += [(d, 'null_placement') for d in null_placement_docs()]
@@ -656,6 +656,7 @@ def run(ctx):
 
     # ---- per case: direct predicate, classification, correspondence
     n_dis = 0
+    n_order = [0]
     candidates = []      # (what, replay_obj): confirmed in a fresh interpreter before they are reported
 
     def candidate(what, obj):
@@ -673,17 +674,27 @@ def run(ctx):
         # determinism / order independence
         h2 = regen_by_case[ci]
         h1 = res.get('sha', 'err:' + res['gen']['err'] if res['gen'] != 'ok' else None)
-        if h1 != h2:
+        def slim(cs):
+            return [{'doc': x['doc'], 'fs': x['fs'], 'ex': x['ex']} for x in cs]
+        h3 = fresh_by_case.get(ci)
+        if h1 != h2 and h3 is None and n_order[0] < 8:
+            n_order[0] += 1
+            h3 = ctx.impl('c19', {'fresh': [c]})['fresh'][0]
+        if h3 is not None:
+            ctx.hist('fresh_interpreter_pass', 'same' if h3 == h1 == h2 else 'differs')
+        if h3 is not None and (h3 != h1 or h3 != h2):
+            # a history after which the text differs from the text of a fresh interpreter
+            if h3 != h1:
+                hist, hh = slim(cases[ci - ci % B:ci]), h1                  # its batch of the first pass
+            else:
+                pos = order.index(ci)
+                hist, hh = slim([cases[j] for j in order[max(0, pos - 800):pos]]), h2   # the reversed single-process pass
+            ctx.violation('generation depends on earlier runs in the same process: text hash %s after %d earlier generations, '
+                          '%s in a fresh interpreter, for %s (fs=%s ex=%s)' % (hh, len(hist), h3, json.dumps(d)[:200], fs, ex),
+                          dict(replay_obj, kind='history', history=hist))
+        elif h1 != h2:
             ctx.violation('generation is not deterministic / depends on earlier runs: text hash %s vs %s for %s (fs=%s ex=%s)'
                           % (h1, h2, json.dumps(d)[:200], fs, ex), dict(replay_obj, kind='order'))
-        h3 = fresh_by_case.get(ci)
-        if h3 is not None:
-            ctx.hist('fresh_interpreter_pass', 'same' if h3 == h1 else 'differs')
-            if h3 != h1:
-                before = [cases[j]['doc'] for j in range(ci - ci % B, ci)]     # the history of this case in its batch
-                ctx.violation('generation depends on earlier runs in the same process: text hash %s after %d earlier generations, '
-                              '%s in a fresh interpreter, for %s (fs=%s ex=%s)' % (h1, len(before), h3, json.dumps(d)[:200], fs, ex),
-                              dict(replay_obj, kind='history', history=before[-400:]))
         regs = regions_of(d, fs, O)
         if res['gen'] == 'ok' and name_collision(res['decls']):
             regs.add('F14g')
@@ -803,7 +814,7 @@ def replay(ctx, obj):
         return replay_witness(ctx, obj)
     if obj.get('kind') == 'history':
         c = {'doc': obj['doc'], 'fs': obj['fs'], 'ex': obj['ex']}
-        hist = [{'doc': h, 'fs': obj['fs'], 'ex': obj['ex']} for h in obj.get('history', [])]
+        hist = obj.get('history', [])
         after = ctx.impl('c19', {'regen': hist + [c]})['regen'][-1]
         alone = ctx.impl('c19', {'fresh': [c]})['fresh'][0]
         print('text hash after %d earlier generations in one process: %s; in a fresh interpreter: %s' % (len(hist), after, alone))
